@@ -188,6 +188,10 @@ def b_scenarios():
                     for rebuild in (False, True):
                         out.append({'layer': 'b', 'searcher': searcher, 'main': main, 'pyc': pyc, 'distract': distract, 'rebuild': rebuild,
                                     'name': 'AAA-MIB', 'skew': 0})
+    # a relative directory name and a change of the working directory between construction and use
+    for searcher in ('any', 'py'):
+        for main in MAIN:
+            out.append({'layer': 'b', 'searcher': searcher, 'main': main, 'pyc': 'none', 'distract': False, 'rebuild': False, 'name': 'AAA-MIB', 'skew': 0, 'relative': True})
     # a searcher with two extensions: any combination of absent / older / equal / newer / directory under either of them
     for main in MAIN:
         for alt in ('file-1', 'file0', 'file+1', 'dir'):
@@ -363,6 +367,7 @@ def run_b(scn):
     from pysmi.searcher import AnyFileSearcher, PyFileSearcher, PyPackageSearcher
     root = core.new_root('c10b')
     viol = []
+    old_cwd = None
 
     def V(clause, msg, **facts):
         facts.update(searcher=scn['searcher'], main=scn['main'], pyc=scn['pyc'])
@@ -375,6 +380,23 @@ def run_b(scn):
         else:
             d = os.path.join(root, 'dst')
         _populate_b(scn, d)
+        darg = d
+        if scn.get('relative') and scn['searcher'] != 'pkg':
+            # the searcher is given a relative directory and the process changes its working directory between making the
+            # searcher and asking it: the directory meant is the one the name denotes when it is used (here `d`); at the
+            # place the name denoted earlier sits the opposite population
+            d = os.path.join(root, 'later', 'dst')
+            with core.unhooked():
+                os.makedirs(os.path.join(root, 'earlier'))
+                os.makedirs(os.path.join(root, 'later'))
+            _populate_b(scn, d)
+            opp = dict(scn, main='none' if _expected_b(scn) == 'fresh' else 'file+1', pyc='none', distract=False)
+            _populate_b(opp, os.path.join(root, 'earlier', 'dst'))
+            old_cwd = os.getcwd()
+            os.chdir(os.path.join(root, 'earlier'))
+            darg = 'dst'
+        d_ = d
+        d = darg
         if scn['searcher'] == 'any':
             s = AnyFileSearcher(d).setOptions(exts=['.jsn', '.json'] if scn.get('alt') else ['.json'])
         elif scn['searcher'] == 'py':
@@ -383,6 +405,9 @@ def run_b(scn):
             sys.path.insert(0, root)
             importlib.invalidate_caches()
             s = PyPackageSearcher(pkgname)
+        d = d_
+        if old_cwd is not None:
+            os.chdir(os.path.join(root, 'later'))
         w = core.World(root=root, faults=scn.get('faults', ()), clock=T0 + 2000)
         with w:
             w.begin_op(0, 'fileExists')
@@ -421,6 +446,8 @@ def run_b(scn):
                 'nontrivial': True, 'events': len(w.log), 'sim_s': 2000, 'fired': dict(w.fired), 'probes': {'layer-b': 1, 'b-answer:' + ans.split(':')[0]: 1},
                 'fp': fp, 'fph': fph, 'comps': {'searcher.fileExists(real)': 1}, 'points': [list(p) for p in w.points], 'answer': ans}
     finally:
+        if old_cwd is not None:
+            os.chdir(old_cwd)
         if pkgname:
             try:
                 sys.path.remove(root)
